@@ -60,6 +60,7 @@ class Function:
                 continue
             self.nodes[n["id"]] = n
             self.parent[n["id"]] = parent
+            n["_fn"] = self
             for c in n.get("c", []) or []:
                 if c is not None:
                     stack.append((c, n["id"]))
@@ -70,6 +71,10 @@ class Function:
     # ---- AST helpers -------------------------------------------------
     def node(self, i):
         return self.nodes.get(i) if i is not None else None
+
+    def own(self, n):
+        """the Function a node belongs to (differs from self for nodes spliced in from an inlined helper)"""
+        return n.get("_fn", self) if n is not None else self
 
     def children(self, n):
         out = [c for c in (n.get("c") or []) if c is not None]
@@ -122,10 +127,48 @@ class Function:
         return [x for x in self.walk(n) if x["k"] in CALL_KINDS or x["k"] in ("CXXConstructExpr", "CXXTemporaryObjectExpr")]
 
     def args(self, call):
-        return [self.node(a) for a in call.get("args", [])]
+        owner = call.get("_fn", self)
+        return [owner.node(a) for a in call.get("args", [])]
 
     def loc(self, n):
         return "%s:%s" % (n.get("f", self.file), n.get("l", "?"))
+
+    def single_inits(self):
+        """locals that are initialised at their declaration and never written or address-taken afterwards:
+        did -> init node. Used to see through introduced temporaries and renamed locals."""
+        if getattr(self, "_single", None) is None:
+            inits = {}
+            for n in self.walk():
+                if n["k"] == "DeclStmt":
+                    for d in n.get("decls", []):
+                        if d.get("init") is not None and not d.get("static") and d.get("dk") == "Var":
+                            i0 = self.strip(d["init"], casts=False)
+                            if i0 is not None and i0["k"] in ("CXXConstructExpr", "CXXTemporaryObjectExpr"):
+                                a = self.args(i0)
+                                same = len(a) == 1 and a[0].get("ct", "").replace("const ", "").strip() == d.get("ct", "").replace("const ", "").strip()
+                                if not same:
+                                    continue     # an object constructed in place is not a name for another value
+                            inits[d["did"]] = d["init"]
+            bad = set()
+            for n in self.walk():
+                k = n["k"]
+                tgt = None
+                if k in ("BinaryOperator", "CompoundAssignOperator") and n.get("op", "").endswith("=") and n["op"] not in ("==", "!=", "<=", ">="):
+                    tgt = self.node(n.get("lhs"))
+                elif k == "UnaryOperator" and n.get("op") in ("++", "--", "&"):
+                    tgt = n["c"][0]
+                elif k == "CXXOperatorCallExpr" and n.get("callee") and n["callee"]["qn"].split("::")[-1] in ("operator=", "operator+=", "operator-=", "operator++", "operator--"):
+                    a = self.args(n)
+                    tgt = a[0] if a else None
+                if tgt is not None:
+                    t = self.strip(tgt)
+                    if t is not None and t["k"] == "DeclRefExpr":
+                        bad.add(t.get("did"))
+                # passed by non-const reference: treat as written
+                if k in ("CallExpr", "CXXMemberCallExpr", "CXXConstructExpr"):
+                    pass
+            self._single = {d: i for d, i in inits.items() if d not in bad}
+        return self._single
 
     # ---- CFG helpers ---------------------------------------------------
     def where(self, nid):
@@ -400,6 +443,7 @@ class Program:
     # ---- call resolution ----------------------------------------------------
     def call_targets(self, f, call):
         """resolved targets of a call node: list of (mn, qn, how)"""
+        f = call.get("_fn", f)
         k = call["k"]
         if k in ("CXXConstructExpr", "CXXTemporaryObjectExpr"):
             c = call.get("ctor")
@@ -426,6 +470,7 @@ class Program:
 
     def callee_name(self, f, call):
         """display/qualified name of what is called: function qn, or slot variable qn, or member name"""
+        f = call.get("_fn", f)
         if call["k"] in ("CXXConstructExpr", "CXXTemporaryObjectExpr"):
             return call["ctor"]["qn"] if call.get("ctor") else None
         c = call.get("callee")
